@@ -22,6 +22,7 @@ CHECKS = {
               "(non-trivial = well-formed 0x-prefixed JSON string, i.e. the hex decoder itself must accept or reject); "
               "Quantities/LongQuantities: rapid-generated uint64 values x spellings (case, leading zeros, one corrupted digit, >16 digits); "
               "BytesReuse: sequences of 1..8 decodes (valid, odd, non-hex, short tokens) into one destination (non-trivial = a success after a failure or a shorter value after a longer one); "
+              "Aliasing: 2..6 destinations filled, refilled (shorter / longer) and written in any order from one message buffer that is reused (and scribbled over) for the next message; model = last value per destination; after every operation every destination equals its model value and the message is unchanged by the decode (non-trivial = a destination grew in place or the buffer was reused); "
               "HexHelpers/Bint: rapid values x prefixes/odd lengths/pad widths 1..32. distinct = distinct canonical case strings (FNV-64)."),
         exhaustive_keys=["ExhaustiveTokens:exhaustive_tokens_len_0_6"],
         assumptions=["strconv.ParseUint, encoding/hex and math/big are the reference codecs",
@@ -31,6 +32,7 @@ CHECKS = {
             R("TestC17_Quantities", 40000, 2000000),
             R("TestC17_LongQuantities", 20000, 1000000, shards=4),
             R("TestC17_BytesReuse", 8000, 300000),
+            R("TestC17_Aliasing", 16000, 400000),
             R("TestC17_HexHelpers", 20000, 1000000, shards=4),
             R("TestC17_Bint", 20000, 1000000, shards=4),
             P("TestC17_EveryByte", shards=9),
